@@ -577,7 +577,7 @@ def gen_cfg(r, small=True, valid_bins=False):
         (nb if flags[3] else 1)
     if size > 2500:      # keep one vocabulary small enough to be rendered inside Coq in about a second
         return gen_cfg(r, small, valid_bins)
-    return (nt, pr[0], pr[1], steps, values, nb) + flags + (r.choice([24, 24, 24, 24, 48, 12, 15, 25]),)
+    return (nt, pr[0], pr[1], steps, values, nb) + flags + (r.choice([24] * 10 + [48, 12, 15, 25]),)
 
 
 def mk_tok(cfg):
@@ -632,12 +632,19 @@ def gen_piece(r, cfg, valid=True, nbars=None, meta_first=False):
     total = t
     tracks = []
     meta_track = 0 if (meta_first or r.random() < 0.6) else r.randrange(nt)     # the signature map may live in any track
+    # sometimes the piece ends with notes that all start exactly on the last bar line (a final downbeat chord)
+    downbeat_end = bool(bounds) and r.random() < 0.3
+    limit = bounds[-1] if downbeat_end and bounds[-1] > 0 else total
     for i in range(nt):
         notes, busy = [], {}
         n = r.randint(0, 6) if total else 0
+        if downbeat_end and r.random() < 0.7:
+            d0 = r.choice(values)
+            notes.append((i, r.randint(lo, min(hi, lo + 3)), bounds[-1], d0, r.choice(G.VELS)))
+            busy.setdefault(notes[-1][1], []).append((bounds[-1], bounds[-1] + d0))
         for _ in range(n):
             p = r.randint(lo, min(hi, lo + 3))
-            on = r.randrange(0, total, unit) if valid or r.random() < 0.8 else r.randrange(0, total)
+            on = r.randrange(0, limit, unit) if valid or r.random() < 0.8 else r.randrange(0, limit)
             d = r.choice(values) if valid or r.random() < 0.8 else r.choice([5, 7, 1])
             if not valid and r.random() < 0.1:
                 p = hi + 1
@@ -652,7 +659,7 @@ def gen_piece(r, cfg, valid=True, nbars=None, meta_first=False):
             ms += metas
         rel = G.abs_to_rel(ms)
         dur = sum(m[2] for m in rel if m[0] == "WAIT")
-        mode = r.random()
+        mode = r.random() if not downbeat_end else 0.9
         if mode < 0.5 and dur < total:
             rel.append(WT(i, total - dur))          # bar-shaped: capped at the end of the last bar
         elif mode < 0.6 and dur + unit <= total:
